@@ -1,7 +1,7 @@
 #!/bin/bash
 # Run every quick check against every seeded defect, in an isolated copy (neither /repo nor
 # /verif's build output is touched).  Results: seeded/<name>/meta.json + seeded/RESULTS.md
-# usage: tools/matrix.sh [name ...]   (default: all of seeded/*)
+# usage: [CHECKS=own] tools/matrix.sh [name ...]   (default: all of seeded/*, all 18 checks)
 set -u
 ROOT="$(cd "$(dirname "$0")/.." && pwd)"
 MX=/tmp/mx
@@ -17,7 +17,11 @@ for n in $NAMES; do
   p="$ROOT/seeded/$n/patch.diff"; [ -f "$p" ] || continue
   git -C $MX/repo checkout -q -- . ; git -C $MX/repo apply "$p" || { echo "$n: patch does not apply"; continue; }
   res="{"
-  for i in 01 02 03 04 05 06 07 08 09 10 11 12 13 14 15 16 17 18; do
+  LIST="01 02 03 04 05 06 07 08 09 10 11 12 13 14 15 16 17 18"
+  # CHECKS=own: only the check of the property the defect was written against (merged into
+  # what is already recorded)
+  [ "${CHECKS:-all}" = own ] && LIST=$(echo "$n" | cut -c2-3)
+  for i in $LIST; do
     out=$(./check C$i quick 2>&1); rc=$?
     sig=$(echo "$out" | grep -E "^  signature:" | head -1 | sed 's/^  signature: //; s/"/'"'"'/g' | cut -c1-140)
     inc=$(echo "$out" | grep -E "^INCONCLUSIVE" | head -1 | sed 's/"/'"'"'/g' | cut -c1-140)
@@ -29,7 +33,10 @@ for n in $NAMES; do
   python3 - "$ROOT/seeded/$n/meta.json" "$res" <<'PY'
 import sys, json
 p, res = sys.argv[1], json.loads(sys.argv[2])
-m = json.load(open(p)); m["caught_by_quick_checks"] = res; json.dump(m, open(p, "w"), indent=1)
+m = json.load(open(p))
+if len(res) < 18:
+    old = m.get("caught_by_quick_checks", {}); old.update(res); res = old
+m["caught_by_quick_checks"] = res; json.dump(m, open(p, "w"), indent=1)
 PY
   echo "$n: $(echo "$res" | grep -o 'C[0-9]*": "VIOLATION' | cut -c1-3 | tr '\n' ' ')"
 done
